@@ -69,15 +69,15 @@ Definition expected_method_types : list string :=
 
 Definition nonempty (l : list string) : list string := filter (fun s => negb (String.eqb s "")) l.
 
-(* marshal-side names written as literals in the hand-written methods *)
+(* marshal-side / unmarshal-side names written as literals in the hand-written methods: compared
+   as SETS over everything reachable from all MarshalXML (resp. UnmarshalXML, Scan) methods, so
+   moving a literal into a helper function or between these methods is not reported *)
 Definition literals_okb : bool :=
-  same_set (nonempty lits_OSM_MarshalXML) ("osm" :: header_attr_names)
-  && same_set (nonempty lits_Change_MarshalXML) ("osmChange" :: header_attr_names ++ ["create"; "modify"; "delete"])%list
-  && same_set (nonempty lits_Action_MarshalXML) ["type"; "old"; "new"]
-  && same_set (nonempty lits_Action_UnmarshalXML) ["type"; "old"; "new"; "node"; "way"; "relation"]
-  && strs_eqb lits_ChangesetDiscussion_MarshalXML ["comment"]
-  && strs_eqb lits_Bounds_MarshalXML ["bounds"]
-  && strs_eqb lits_Scanner_Scan (map fst scan_kinds)
+  same_set (nonempty lits_xml_marshal_all)
+           ("osm" :: "osmChange" :: header_attr_names
+            ++ ["create"; "modify"; "delete"; "type"; "old"; "new"; "comment"; "bounds"])%list
+  && same_set (nonempty lits_xml_unmarshal_all) ["type"; "old"; "new"; "node"; "way"; "relation"]
+  && same_set (nonempty lits_scanner_all) (map fst scan_kinds)
   && strs_eqb (map fst scan_kinds) (map fst object_kinds)
   && String.eqb c_dateLayout "2006-01-02 15:04:05 MST".
 
